@@ -13,7 +13,9 @@ fn value() -> impl Strategy<Value = f32> + Clone {
     prop_oneof![
         6 => ((1e-3f32.ln()..1e3f32.ln()), any::<bool>()).prop_map(|(l, s): (f32, bool)| if s { -l.exp() } else { l.exp() }),
         1 => Just(0.0f32),
-        2 => -1.0f32..1.0,
+        // (a draw closer to zero than the smallest stated magnitude is zero: squares of values
+        // below ~1e-19 are not representable in f32, which is outside "several magnitudes")
+        2 => (-1.0f32..1.0).prop_map(|x| if x.abs() < 1e-6 { 0.0 } else { x }),
         1 => (-8i32..8).prop_map(|k| k as f32),
     ]
 }
@@ -136,6 +138,11 @@ fn ref_cosine(a: &[f32], b: &[f32]) -> Option<(f64, f64)> {
 /// The statement does not pin whether an empty vector packs to nothing or to one zero block:
 /// the check accepts either reading, consistently for the whole case.
 pub fn check_dist(c: &DistCase) -> CaseResult {
+    // shrinking moves values towards zero: a non-zero component whose square underflows f32 is
+    // outside the stated domain (magnitudes 1e-3..1e3) and is not judged
+    if c.a.iter().chain(c.b.iter()).chain(c.c.iter()).any(|x| *x != 0.0 && x.abs() < 1e-9) {
+        return Ok(CaseOk::trivial().label("component_below_the_stated_magnitudes_skipped"));
+    }
     let has_empty = c.a.is_empty() || c.b.is_empty() || c.c.is_empty();
     if !has_empty {
         return check_dist_inner(c);
